@@ -5,6 +5,15 @@
 EXTENDS Endpoint, Json, IOUtils, TLCExt
 
 Rec == ndJsonDeserialize(IOEnv.TRACE)
+
+\* constants of Endpoint for traces: peers are whatever the trace reports
+TPeers == { Rec[i].peer : i \in { j \in 1..Len(Rec) : Rec[j].ev = "Accepted" } }
+MappedPrefix == "::ffff:"
+\* the harness knows which source addresses it uses and how a dual-stack listener reports them
+CanonMaps == { Rec[j].canon : j \in { i \in 1..Len(Rec) : Rec[i].ev = "Config" } }
+TCanon(a) == LET ms == { m \in CanonMaps : a \in DOMAIN m } IN IF ms = {} THEN a ELSE (CHOOSE m \in ms : TRUE)[a]
+TProtos == {"HTTP1", "HTTP2"}
+TChannels == {"tunnel", "ping", "speedtest", "reverse_proxy"}
 N == Len(Rec)
 
 VARIABLE l
@@ -25,7 +34,8 @@ TRulesEval == Ev("RulesEval") /\ Adv /\ RulesEval(R.ip, R.random # "null", R.ver
 
 \* without a rules engine the evaluation step leaves no event
 TNoRulesSilent == Ev("DemuxResult") /\ stage = "peeked" /\ NoRules /\ UNCHANGED l
-TDemux == Ev("DemuxResult") /\ Adv /\ Demux(R.res.channel, R.res.proto)
+ProtoName(p) == IF p = "h1" THEN "HTTP1" ELSE IF p = "h2" THEN "HTTP2" ELSE p
+TDemux == Ev("DemuxResult") /\ Adv /\ Demux(R.res.channel, ProtoName(R.res.proto))
 TTlsAcceptStart == Ev("TlsAcceptStart") /\ Adv /\ TlsAcceptStart
 
 TSessionOpen  == Ev("Gauge") /\ R.name = "client_sessions" /\ R.delta = 1 /\ Adv /\ SessionOpen(R.label)
